@@ -71,7 +71,7 @@ def run(ctx, report: Report) -> None:
     mmod = src.mod('css_match')
 
     # ---- R1 ------------------------------------------------------------------------------------------
-    r1 = report.rule('C12-R1', 'attribute namespace decision table', floor=300)
+    r1 = report.rule('C12-R1', 'attribute namespace decision table', floor=150)
     _, fn = src.func('css_match.CSSMatch.match_attribute_name')
     params = [a.arg for a in fn.args.args]
     if len(params) != 4:
@@ -171,7 +171,7 @@ def run(ctx, report: Report) -> None:
         r2.note('no bs4-typed .prefix read found at all')
 
     # ---- R3 ------------------------------------------------------------------------------------------
-    r3 = report.rule('C12-R3', 'element namespace decision table', floor=60)
+    r3 = report.rule('C12-R3', 'element namespace decision table', floor=30)
     _, mn = src.func('css_match.CSSMatch.match_namespace')
     first_bad = None
     n = 0
@@ -216,7 +216,7 @@ def run(ctx, report: Report) -> None:
                      f'<{el_name}> in namespace {el_ns or "(none)"} gives {got}, the property prescribes {exp} (the universal selector - '
                      f'explicit or implied - is subject to the default namespace like any type selector)')
 
-    r4 = report.rule('C12-R4', 'implied universal selector is added exactly to top-level alternatives (parsed token sequences)', floor=4)
+    r4 = report.rule('C12-R4', 'implied universal selector is added exactly to top-level alternatives (parsed token sequences)', floor=1)
     from .sem import implied_universal_tables
     implied_universal_tables(ctx, r4)
 
@@ -250,7 +250,7 @@ def run(ctx, report: Report) -> None:
         raise AnalysisError('ImmutableDict.__init__: store to self._d not found')
 
     # ---- R6 ------------------------------------------------------------------------------------------
-    r6 = report.rule('C12-R6', 'the caller\'s prefix map is in force for every list except inside HTML-only definitions, and is restored', floor=32)
+    r6 = report.rule('C12-R6', 'the caller\'s prefix map is in force for every list except inside HTML-only definitions, and is restored', floor=16)
     from .sem import list_context_table
     list_context_table(ctx, r6)
 
